@@ -162,6 +162,26 @@ def r18_7(ck: Check) -> None:
             ck.ok("R18.7", "KNOWN_HASHES literal: a height listed twice carries the same id", "%d duplicated height(s)" % len(dup), m.path)
 
 
+def r18_8(ck: Check) -> None:
+    """during bulk download only every IBD_VALIDATION_SKIP-th height runs the in-state validator, which is where the checkpoint comparison
+    lives: each of those heights below the horizon must be a checkpointed height, or an alternative history is never compared at all"""
+    skip = ck.repo.const("skepticoin.networking.params.IBD_VALIDATION_SKIP")
+    table = ck.repo.const("skepticoin.cheating.KNOWN_HASHES")
+    mx = ck.repo.const("skepticoin.cheating.MAX_KNOWN_HASH_HEIGHT")
+    m = ck.repo.module("skepticoin.networking.params")
+    construct = "every multiple of IBD_VALIDATION_SKIP up to the checkpoint horizon is a checkpointed height (and there is at least one)"
+    if not (isinstance(skip, int) and not isinstance(skip, bool) and skip > 0 and isinstance(table, dict) and isinstance(mx, int)):
+        ck.violated("R18.8", construct, "IBD_VALIDATION_SKIP = %r" % (skip,), m.path)
+        return
+    hs = list(range(skip, mx + 1, skip))
+    missing = [h for h in hs if h not in table]
+    if hs and not missing:
+        ck.ok("R18.8", construct, "skip %d: heights %s.. are all checkpoints" % (skip, hs[:3]), m.path)
+    else:
+        ck.violated("R18.8", construct, "skip %d: %s — a downloaded history is marked validated and stored without ever meeting a checkpoint"
+                    % (skip, ("validated heights %s are not checkpoints" % missing[:4]) if hs else "no validated height lies below the horizon"), m.path)
+
+
 def r18_4(ck: Check) -> None:
     s = ck.summ("skepticoin.hash.scrypt", 0)
     require_return(ck, "R18.4", s, Spec(s, ("pw", "salt")), "scrypt_hash(pw, salt, N=32768, r=8, p=1, buflen=32)", "scrypt N=2^15, r=8, p=1, 32 bytes")
@@ -250,6 +270,7 @@ def check(ck: Check) -> None:
     ck.run("R18.2", "guard is on the accepting path of add_block", lambda: r18_2(ck))
     ck.run("R18.3", "checkpoint table has not drifted", lambda: r18_3(ck))
     ck.run("R18.7", "checkpoint horizon has not moved", lambda: r18_7(ck))
+    ck.run("R18.8", "bulk download meets the checkpoints", lambda: r18_8(ck))
     ck.run("R18.4", "hash parameters", lambda: r18_4(ck))
     ck.run("R18.5", "wire format has not drifted", lambda: r18_5(ck))
     ck.run("R18.6", "genesis constant", lambda: r18_6(ck))
